@@ -1680,24 +1680,31 @@ package analysis
 //@ func stripOAIGenForRef(opts, k, r)
 //@   aspect safe
 //@   requires optsWF(opts) && k in dom(opts.flattenContext.newRefs) && r == opts.flattenContext.newRefs[k] && len(r.parents) >= 1
-//@   modifies heaps DOC, heaps FREFS, opts.flattenContext.warnings
+//@   modifies heaps DOC, heaps FREFS, opts.flattenContext.warnings, ghost failed
 //@   ensures optsWF(opts)
-//@   loop 1: modifies heaps DOC, heaps FREFS, opts.flattenContext.warnings
-//@   loop 2: modifies heap newRef
+//@   ensures result1 == nil ==> failed == old(failed)
+//@   loop 1: modifies heaps DOC, heaps FREFS, opts.flattenContext.warnings, ghost failed
+//@   loop 2: modifies heap newRef, ghost failed
 //@   loop 3: modifies nothing
 //@   loop 1: invariant optsWF(opts) && r != nil && r.schema != nil && r.key in dom(opts.flattenContext.newRefs) && len(pr) >= 1 && strsNE(pr)
 //@   loop 2: invariant optsWF(opts) && r != nil && r.schema != nil && r.key in dom(opts.flattenContext.newRefs) && len(pr) >= 1 && strsNE(pr)
 //@   loop 3: invariant optsWF(opts) && r != nil && r.schema != nil && r.key in dom(opts.flattenContext.newRefs) && len(pr) >= 1 && strsNE(pr) && value != nil && strsNE(newParents) && strsNE(value.parents)
+//@   loop 1: invariant failed == old(failed)
+//@   loop 2: invariant failed == old(failed)
+//@   loop 3: invariant failed == old(failed)
 
 //@ func stripOAIGen(opts)
 //@   aspect safe
 //@   requires optsWF(opts) && idxKeysWF(opts.Spec)
-//@   modifies heaps DOC, heaps INDEX, heaps FREFS, opts.flattenContext.warnings
+//@   modifies heaps DOC, heaps INDEX, heaps FREFS, opts.flattenContext.warnings, ghost failed
 //@   ensures optsWF(opts) && idxKeysWF(opts.Spec) && optsSame(opts, old(opts.Spec), old(opts.Spec.spec), old(opts.flattenContext))
-//@   loop 1: modifies heap newRef
-//@   loop 2: modifies heaps DOC, heaps FREFS, opts.flattenContext.warnings
+//@   ensures result1 == nil ==> failed == old(failed)
+//@   loop 1: modifies heap newRef, ghost failed
+//@   loop 2: modifies heaps DOC, heaps FREFS, opts.flattenContext.warnings, ghost failed
 //@   loop 1: invariant optsWF(opts) && idxKeysWF(opts.Spec) && optsSame(opts, old(opts.Spec), old(opts.Spec.spec), old(opts.flattenContext))
 //@   loop 2: invariant optsWF(opts) && idxKeysWF(opts.Spec) && optsSame(opts, old(opts.Spec), old(opts.Spec.spec), old(opts.flattenContext))
+//@   loop 1: invariant failed == old(failed)
+//@   loop 2: invariant failed == old(failed)
 
 //@ func (f *FlattenOpts) croak()
 //@   aspect safe
@@ -1722,105 +1729,132 @@ package analysis
 //@   aspect safe
 //@   requires isn != nil && isn.Spec != nil && isn.opts != nil && isn.opts.Spec != nil && isn.opts.Spec.spec != nil && len(key) >= 1 && aschema != nil && strfmt.Default != nil
 //@   requires isn.flattenContext != nil ==> ctxWF(isn.flattenContext)
-//@   modifies heaps DOC, heaps FREFS, isn.opts.flattenContext.warnings, heap map[string]*spec.Operation, heap any
+//@   modifies heaps DOC, heaps FREFS, isn.opts.flattenContext.warnings, heap map[string]*spec.Operation, heap any, ghost failed
 //@   ensures isn.flattenContext != nil ==> ctxWF(isn.flattenContext)
-//@   loop 1: modifies heaps DOC, heaps FREFS, isn.opts.flattenContext.warnings, heap map[string]*spec.Operation, heap any
-//@   loop 2: modifies heaps DOC, isn.opts.flattenContext.warnings
+//@   ensures result == nil ==> failed == old(failed)
+//@   loop 1: modifies heaps DOC, heaps FREFS, isn.opts.flattenContext.warnings, heap map[string]*spec.Operation, heap any, ghost failed
+//@   loop 2: modifies heaps DOC, isn.opts.flattenContext.warnings, ghost failed
 //@   loop 1: invariant isn.flattenContext != nil ==> ctxWF(isn.flattenContext)
 //@   loop 2: invariant isn.flattenContext != nil ==> ctxWF(isn.flattenContext)
 //@   loop 2: invariant an != nil && idxKeysWF(an) && sch != nil
+//@   loop 1: invariant failed == old(failed)
+//@   loop 2: invariant failed == old(failed)
 
 //@ func flattenAnonPointer(key, v, refsToReplace, namer, opts)
 //@   aspect safe
 //@   requires optsWF(opts) && len(key) >= 1 && refsToReplace != nil && namer != nil && namer.Spec != nil && namer.opts == opts && namer.flattenContext == opts.flattenContext
-//@   modifies heaps DOC, heaps FREFS, opts.flattenContext.warnings, heap map[string]*spec.Operation, heap any, map refsToReplace
+//@   modifies heaps DOC, heaps FREFS, opts.flattenContext.warnings, heap map[string]*spec.Operation, heap any, map refsToReplace, ghost failed
 //@   ensures optsWF(opts)
 //@   ensures forall k string :: old(k in dom(refsToReplace)) ==> k in dom(refsToReplace)
 //@   ensures forall k in dom(refsToReplace) :: len(k) >= 1 || old(k in dom(refsToReplace))
-//@   loop 1: modifies opts.flattenContext.warnings
-//@   loop 2: modifies map refsToReplace
+//@   ensures result == nil ==> failed == old(failed)
+//@   loop 1: modifies opts.flattenContext.warnings, ghost failed
+//@   loop 2: modifies map refsToReplace, ghost failed
 //@   loop 1: invariant optsWF(opts) && an != nil && idxKeysWF(an) && asch != nil && (forall i in 0..len(callers) :: len(callers[i]) >= 1) && (len(callers) > 0 ==> v.Ref.String() != "")
 //@   loop 2: invariant optsWF(opts) && (forall k string :: old(k in dom(refsToReplace)) ==> k in dom(refsToReplace)) && (forall k in dom(refsToReplace) :: len(k) >= 1 || old(k in dom(refsToReplace)))
+//@   loop 1: invariant failed == old(failed)
+//@   loop 2: invariant failed == old(failed)
 
 //@ func namePointers(opts)
 //@   aspect safe
 //@   requires optsWF(opts) && idxKeysWF(opts.Spec)
-//@   modifies heaps DOC, heaps INDEX, heaps FREFS, opts.flattenContext.warnings, heap any
+//@   modifies heaps DOC, heaps INDEX, heaps FREFS, opts.flattenContext.warnings, heap any, ghost failed
 //@   ensures optsWF(opts) && idxKeysWF(opts.Spec) && optsSame(opts, old(opts.Spec), old(opts.Spec.spec), old(opts.flattenContext))
-//@   loop 1: modifies opts.flattenContext.warnings, map refsToReplace
-//@   loop 2: modifies heaps DOC, heaps FREFS, opts.flattenContext.warnings, heap any, heap map[string]*spec.Operation, map refsToReplace
+//@   ensures result == nil ==> failed == old(failed)
+//@   loop 1: modifies opts.flattenContext.warnings, map refsToReplace, ghost failed
+//@   loop 2: modifies heaps DOC, heaps FREFS, opts.flattenContext.warnings, heap any, heap map[string]*spec.Operation, map refsToReplace, ghost failed
 //@   loop 1: invariant optsWF(opts) && idxKeysWF(opts.Spec) && optsSame(opts, old(opts.Spec), old(opts.Spec.spec), old(opts.flattenContext)) && refsToReplace != nil && fresh(refsToReplace) && (forall k in dom(refsToReplace) :: len(k) >= 1)
 //@   loop 2: invariant optsWF(opts) && optsSame(opts, old(opts.Spec), old(opts.Spec.spec), old(opts.flattenContext)) && refsToReplace != nil && (forall k in dom(refsToReplace) :: len(k) >= 1) && (forall i in 0..len(depthFirst) :: depthFirst[i] in dom(refsToReplace))
 //@   loop 2: invariant namer != nil && namer.Spec == opts.Spec.spec && namer.opts == opts && namer.flattenContext == opts.flattenContext
+//@   loop 1: invariant failed == old(failed)
+//@   loop 2: invariant failed == old(failed)
 
 //@ func nameInlinedSchemas(opts)
 //@   aspect safe
 //@   requires optsWF(opts) && idxKeysWF(opts.Spec)
-//@   modifies heaps DOC, heaps INDEX, heaps FREFS, opts.flattenContext.warnings, heap any
+//@   modifies heaps DOC, heaps INDEX, heaps FREFS, opts.flattenContext.warnings, heap any, ghost failed
 //@   ensures optsWF(opts) && idxKeysWF(opts.Spec) && optsSame(opts, old(opts.Spec), old(opts.Spec.spec), old(opts.flattenContext))
-//@   loop 1: modifies heaps DOC, heaps FREFS, opts.flattenContext.warnings, heap any, heap map[string]*spec.Operation
+//@   ensures result == nil ==> failed == old(failed)
+//@   loop 1: modifies heaps DOC, heaps FREFS, opts.flattenContext.warnings, heap any, heap map[string]*spec.Operation, ghost failed
 //@   loop 1: invariant optsWF(opts) && idxKeysWF(opts.Spec) && optsSame(opts, old(opts.Spec), old(opts.Spec.spec), old(opts.flattenContext))
 //@   loop 1: invariant namer != nil && namer.Spec == opts.Spec.spec && namer.opts == opts && namer.flattenContext == opts.flattenContext
+//@   loop 1: invariant failed == old(failed)
 
 //@ func stripPointersAndOAIGen(opts)
 //@   aspect safe
 //@   requires optsWF(opts) && idxKeysWF(opts.Spec)
-//@   modifies heaps DOC, heaps INDEX, heaps FREFS, opts.flattenContext.warnings, heap any
+//@   modifies heaps DOC, heaps INDEX, heaps FREFS, opts.flattenContext.warnings, heap any, ghost failed
 //@   ensures optsWF(opts) && idxKeysWF(opts.Spec) && optsSame(opts, old(opts.Spec), old(opts.Spec.spec), old(opts.flattenContext))
-//@   loop 1: modifies heaps DOC, heaps INDEX, heaps FREFS, opts.flattenContext.warnings, heap any
+//@   ensures result == nil ==> failed == old(failed)
+//@   loop 1: modifies heaps DOC, heaps INDEX, heaps FREFS, opts.flattenContext.warnings, heap any, ghost failed
 //@   loop 1: invariant optsWF(opts) && idxKeysWF(opts.Spec) && optsSame(opts, old(opts.Spec), old(opts.Spec.spec), old(opts.flattenContext))
+//@   loop 1: invariant failed == old(failed)
 
 //@ func importKnownRef(entry, refStr, newName, opts)
 //@   aspect safe
 //@   requires optsWF(opts) && strsNE(entry.Keys)
-//@   modifies heaps DOC
+//@   modifies heaps DOC, ghost failed
+//@   ensures result == nil ==> failed == old(failed)
+//@   loop 1: invariant failed == old(failed)
 //@ func importNewRef(entry, refStr, opts)
 //@   aspect safe
 //@   requires optsWF(opts) && strsNE(entry.Keys) && entry.Ref.String() != ""
-//@   modifies heaps DOC, heaps FREFS, opts.flattenContext.warnings
+//@   modifies heaps DOC, heaps FREFS, opts.flattenContext.warnings, ghost failed
 //@   ensures optsWF(opts)
-//@   loop 1: modifies heaps DOC
-//@   loop 2: modifies heaps DOC, heaps FREFS, opts.flattenContext.warnings
+//@   ensures result == nil ==> failed == old(failed)
+//@   loop 1: modifies heaps DOC, ghost failed
+//@   loop 2: modifies heaps DOC, heaps FREFS, opts.flattenContext.warnings, ghost failed
 //@   loop 1: invariant optsWF(opts) && sch != nil
 //@   loop 2: invariant optsWF(opts) && sch != nil
+//@   loop 1: invariant failed == old(failed)
+//@   loop 2: invariant failed == old(failed)
 
 // (importExternalReferences creates the bookkeeping when its caller did not)
 //@ func importExternalReferences(opts)
 //@   aspect safe
 //@   requires optsBase(opts) && (opts.flattenContext != nil ==> ctxWF(opts.flattenContext)) && idxKeysWF(opts.Spec)
-//@   modifies heaps DOC, heaps FREFS, opts.flattenContext, opts.flattenContext.warnings
+//@   modifies heaps DOC, heaps FREFS, opts.flattenContext, opts.flattenContext.warnings, ghost failed
 //@   ensures optsWF(opts) && opts.Spec == old(opts.Spec) && opts.Spec.spec == old(opts.Spec.spec) && (old(opts.flattenContext) != nil ==> opts.flattenContext == old(opts.flattenContext)) && (old(opts.flattenContext) == nil ==> fresh(opts.flattenContext))
+//@   ensures result1 == nil ==> failed == old(failed)
 //@   loop 1: modifies nothing
-//@   loop 2: modifies heaps DOC, heaps FREFS, opts.flattenContext.warnings
-//@   loop 3: modifies heaps FREFS
+//@   loop 2: modifies heaps DOC, heaps FREFS, opts.flattenContext.warnings, ghost failed
+//@   loop 3: modifies heaps FREFS, ghost failed
 //@   loop 1: invariant forall i in 0..len(sortedRefStr) :: sortedRefStr[i] in dom(groupedRefs)
 //@   loop 2: invariant optsWF(opts) && revIdxWF(groupedRefs) && (forall i in 0..len(sortedRefStr) :: sortedRefStr[i] in dom(groupedRefs))
 //@   loop 3: invariant optsWF(opts)
+//@   loop 1: invariant failed == old(failed)
+//@   loop 2: invariant failed == old(failed)
+//@   loop 3: invariant failed == old(failed)
 
 //@ func importReferences(opts)
 //@   aspect safe
 //@   requires optsBase(opts) && (opts.flattenContext != nil ==> ctxWF(opts.flattenContext)) && idxKeysWF(opts.Spec)
-//@   modifies heaps DOC, heaps INDEX, heaps FREFS, opts.flattenContext, opts.flattenContext.warnings
+//@   modifies heaps DOC, heaps INDEX, heaps FREFS, opts.flattenContext, opts.flattenContext.warnings, ghost failed
 //@   ensures optsWF(opts) && idxKeysWF(opts.Spec) && opts.Spec == old(opts.Spec) && opts.Spec.spec == old(opts.Spec.spec) && (old(opts.flattenContext) != nil ==> opts.flattenContext == old(opts.flattenContext))
-//@   loop 1: modifies heaps DOC, heaps INDEX, heaps FREFS, opts.flattenContext, heap context
+//@   ensures result == nil ==> failed == old(failed)
+//@   loop 1: modifies heaps DOC, heaps INDEX, heaps FREFS, opts.flattenContext, heap context, ghost failed
 //@   loop 1: invariant optsBase(opts) && (opts.flattenContext != nil ==> ctxWF(opts.flattenContext)) && idxKeysWF(opts.Spec) && opts.Spec == old(opts.Spec) && opts.Spec.spec == old(opts.Spec.spec) && (old(opts.flattenContext) != nil ==> opts.flattenContext == old(opts.flattenContext))
 //@   loop 1: invariant imported || err != nil ==> opts.flattenContext != nil
+//@   loop 1: invariant err == nil ==> failed == old(failed)
 //@   loop 1: invariant old(opts.flattenContext) == nil ==> opts.flattenContext == nil || fresh(opts.flattenContext)
 
 //@ func expand(opts)
 //@   aspect safe
 //@   requires opts != nil && opts.Spec != nil && opts.Spec.spec != nil
-//@   modifies heaps DOC, heaps INDEX
+//@   modifies heaps DOC, heaps INDEX, ghost failed
 //@   ensures result == nil ==> idxKeysWF(opts.Spec)
 //@   ensures opts.Spec.spec == old(opts.Spec.spec)
+//@   ensures result == nil ==> failed == old(failed)
 
 //@ func normalizeRef(opts)
 //@   aspect safe
 //@   requires opts != nil && opts.Spec != nil && opts.Spec.spec != nil && idxKeysWF(opts.Spec)
-//@   modifies heaps DOC, heaps INDEX
+//@   modifies heaps DOC, heaps INDEX, ghost failed
 //@   ensures idxKeysWF(opts.Spec) && opts.Spec.spec == old(opts.Spec.spec)
-//@   loop 1: modifies heaps DOC
+//@   ensures result == nil ==> failed == old(failed)
+//@   loop 1: modifies heaps DOC, ghost failed
 //@   loop 1: invariant idxKeysWF(opts.Spec) && opts.Spec.spec == old(opts.Spec.spec)
+//@   loop 1: invariant failed == old(failed)
 
 //@ func removeUnusedShared(opts)
 //@   aspect safe
@@ -1845,4 +1879,14 @@ package analysis
 //@ func Flatten(opts)
 //@   aspect safe
 //@   requires opts.Spec != nil && opts.Spec.spec != nil && strfmt.Default != nil
-//@   modifies heaps DOC, heaps INDEX, heaps FREFS, heap any
+//@   modifies heaps DOC, heaps INDEX, heaps FREFS, heap any, ghost failed
+//@   ensures result == nil ==> failed == old(failed)
+
+// Schema under the safe aspect: a failed expansion of a $ref is reported (error propagation, C09)
+//@ func Schema(opts)
+//@   aspect safe
+//@   requires strfmt.Default != nil
+//@   modifies ghost failed
+//@   ensures opts.Schema == nil ==> result1 != nil
+//@   ensures result1 == nil ==> result != nil && fresh(result)
+//@   ensures result1 == nil ==> failed == old(failed)
